@@ -285,7 +285,9 @@ def c09_5(ctx, ss):
                     ctx.violation("C09.5", ckey(ff, h, "handler"), where(ff, h),
                                   f"handler around the recursion catches {names}, wider than DecayNotFound: real errors are swallowed and the daughter silently left bare")
                     bad = True
-                elif any(isinstance(x, (ast.Raise, ast.Return, ast.Break, ast.Continue)) for s in h.body for x in ast.walk(s)):
+                elif any(isinstance(x, (ast.Raise, ast.Return, ast.Break)) for s in h.body for x in ast.walk(s)):
+                    # (`continue` is accepted: it moves on to the next daughter, leaving this one bare — the same as `pass` when the
+                    #  only work left in the iteration is the store of the sub-chain)
                     ctx.violation("C09.5", ckey(ff, h, "handler"), where(ff, h), "DecayNotFound handler does not simply keep the bare name (it exits the loop or re-raises)")
                     bad = True
             if t.finalbody:
@@ -318,38 +320,37 @@ def c09_5(ctx, ss):
                       "_find_decay_modes can finish without returning a table and without raising DecayNotFound")
     else:
         ctx.holds("C09.5", ckey(gf, None, "fallthrough"), where(gf, rn[0]), "every path without a matching table ends in raise DecayNotFound", len(rets) + len(rn))
-    # the search covers every table
-    loops = [n for n in pf.walk_no_nested(gf.node) if isinstance(n, ast.For)]
-    okl = len(loops) == 1 and txt(gflow.expand(loops[0].iter)) in ("self._parsed_decays", "list(self._parsed_decays)", "tuple(self._parsed_decays)") \
-        and not any(isinstance(x, (ast.Break, ast.Continue)) for x in ast.walk(loops[0])) \
-        and not [c for c in guards.path_conditions(gf.node, loops[0]) if c[0] in ("if", "exc")]
-    (ctx.holds if okl else ctx.violation)("C09.5", ckey(gf, None, "all-tables"), where(gf, loops[0] if loops else gf.node),
-                                          "the table of the mother is searched among all parsed decay tables" if okl
-                                          else f"_find_decay_modes does not look through every table (`{txt(gflow.expand(loops[0].iter))[:60] if loops else None}`): mothers beyond it are 'not found'")
-    for r in rets:
-        conds = guards.path_conditions(gf.node, r)
-        eqs = [gflow.expand(e) for kind, e, pol in conds if kind == "if" and pol]
-        ok = any(isinstance(e, ast.Compare) and len(e.ops) == 1 and isinstance(e.ops[0], ast.Eq)
-                 and {"mother"} & {txt(e.left), txt(e.comparators[0])}
-                 and "get_decay_mother_name" in txt(e) for e in eqs)
-        rv = gflow.expand(r.value) if r.value is not None else None
-        fd = [c for c in ast.walk(rv) if isinstance(c, ast.Call) and isinstance(c.func, ast.Attribute) and c.func.attr == "find_data"] if rv is not None else []
-        same_tree = False
-        if ok and fd:
-            for e in eqs:
-                if isinstance(e, ast.Compare) and "get_decay_mother_name" in txt(e):
-                    call = [c for c in ast.walk(e) if isinstance(c, ast.Call) and txt(c.func).endswith("get_decay_mother_name")]
-                    if call and call[0].args and txt(call[0].args[0]) == txt(fd[0].func.value):
-                        same_tree = True
-        lit = fd and fd[0].args and isinstance(fd[0].args[0], ast.Constant) and fd[0].args[0].value == "decayline"
-        extra = [txt(e) for kind, e, pol in conds if kind == "if" and "get_decay_mother_name" not in txt(gflow.expand(e))]
+    # the search: first table, among ALL parsed tables, whose mother name equals the argument (loop or next(generator) form)
+    from ..core.search import searches
+    found = searches(gf.node)
+    if not found:
+        raise AnchorMissing("_find_decay_modes: no first-match search (loop with return / next(generator)) recognised")
+    mparam = gf.params[1] if len(gf.params) > 1 else "mother"
+    for sr in found:
+        it = txt(gflow.expand(sr.iter))
+        guarded = [c for c in guards.path_conditions(gf.node, sr.anchor) if c[0] in ("if", "exc")]
+        okl = it in ("self._parsed_decays", "list(self._parsed_decays)", "tuple(self._parsed_decays)") and not sr.early_exit and not guarded
+        (ctx.holds if okl else ctx.violation)("C09.5", ckey(gf, None, "all-tables"), where(gf, sr.anchor),
+                                              "the table of the mother is searched among all parsed decay tables" if okl
+                                              else f"_find_decay_modes does not look through every table (`{it[:60]}`{', leaves the search early' if sr.early_exit else ''}): mothers beyond it are 'not found'")
+        extra = [txt(e) for e, pol in sr.extra] + [txt(e) for e, pol in sr.preds if "get_decay_mother_name" not in txt(e)]
         if extra:
-            ctx.violation("C09.5", ckey(gf, r, "extra-guard"), where(gf, r), f"the table lookup additionally depends on `{extra[0][:80]}` (e.g. a memo of earlier misses): an existing table can be reported as not found")
+            ctx.violation("C09.5", ckey(gf, sr.ret, "extra-guard"), where(gf, sr.ret), f"the table lookup additionally depends on `{extra[0][:80]}` (e.g. a memo of earlier misses): an existing table can be reported as not found")
+        eqs = [(e, pol) for e, pol in sr.preds if "get_decay_mother_name" in txt(e)]
+        ok = len(eqs) == 1 and eqs[0][1] is True and isinstance(eqs[0][0], ast.Compare) and len(eqs[0][0].ops) == 1 and isinstance(eqs[0][0].ops[0], ast.Eq)
+        if ok:
+            sides = [eqs[0][0].left, eqs[0][0].comparators[0]]
+            names = [x for x in sides if isinstance(x, ast.Call) and txt(x.func).endswith("get_decay_mother_name") and len(x.args) == 1 and txt(x.args[0]) == sr.var]
+            other = [x for x in sides if not (isinstance(x, ast.Call) and txt(x.func).endswith("get_decay_mother_name"))]
+            ok = len(names) == 1 and len(other) == 1 and gflow.is_identity_of(other[0], mparam)
+        fd = [c for c in ast.walk(sr.result) if isinstance(c, ast.Call) and isinstance(c.func, ast.Attribute) and c.func.attr == "find_data"]
+        same_tree = bool(fd) and txt(fd[0].func.value) == sr.var
+        lit = bool(fd) and fd[0].args and isinstance(fd[0].args[0], ast.Constant) and fd[0].args[0].value == "decayline"
         if ok and same_tree and lit:
-            ctx.holds("C09.5", ckey(gf, r), where(gf, r), "returns the decaylines of the tree whose mother name equals the argument", 3)
+            ctx.holds("C09.5", ckey(gf, None, "hit"), where(gf, sr.ret), "returns the decaylines of the tree whose mother name equals the argument", 3)
         else:
-            ctx.violation("C09.5", ckey(gf, r), where(gf, r),
-                          f"_find_decay_modes returns `{txt(rv)[:100] if rv is not None else None}` not guarded by mother-name equality of the same tree")
+            ctx.violation("C09.5", ckey(gf, None, "hit"), where(gf, sr.ret),
+                          f"_find_decay_modes returns `{txt(sr.result)[:100]}` not guarded by mother-name equality of the same tree")
     ctx.count("functions", 2)
 
 
